@@ -3,6 +3,8 @@ package main
 import (
 	"encoding/json"
 	"fmt"
+	"go/token"
+	"go/types"
 	"os"
 	"path/filepath"
 	"runtime/debug"
@@ -66,6 +68,9 @@ func main() {
 			os.Exit(2)
 		}
 		os.Exit(0)
+	case "--devsweep":
+		devSweep(repo, os.Args[2])
+		return
 	case "--sibsweep":
 		sibSweep(repo)
 		return
@@ -275,4 +280,109 @@ func sibSweep(repo string) {
 		}
 	}
 	fmt.Printf("groups>=3: %d deviants: %d\n", ng, nd)
+}
+
+func devSweep(repo, what string) {
+	p, err := Load(LoadOpts{Repo: repo, GOOS: "linux", GOARCH: "amd64"})
+	if err != nil {
+		fmt.Println(err)
+		return
+	}
+	n := 0
+	for _, pk := range p.Pkgs {
+		if !strings.HasPrefix(pk.PkgPath, modPrefix) {
+			continue
+		}
+		for _, fn := range p.AllSrcFuncs(pk) {
+			switch what {
+			case "errassert":
+				allInstrs(fn, func(in ssa.Instruction) {
+					if ta, ok := in.(*ssa.TypeAssert); ok && isErrorType(ta.X.Type()) {
+						n++
+						fmt.Printf("%s: %s -> %s\n", p.Pos(ta.Pos()), fnName(fn), ta.AssertedType)
+					}
+				})
+			case "narrowarith":
+				allInstrs(fn, func(in ssa.Instruction) {
+					cv, ok := in.(*ssa.Convert)
+					if !ok {
+						return
+					}
+					to, ok1 := cv.Type().Underlying().(*types.Basic)
+					from, ok2 := cv.X.Type().Underlying().(*types.Basic)
+					if !ok1 || !ok2 || to.Info()&types.IsInteger == 0 || from.Info()&types.IsInteger == 0 {
+						return
+					}
+					sz := types.SizesFor("gc", "amd64")
+					if sz.Sizeof(to) <= sz.Sizeof(from) {
+						return
+					}
+					if bo, ok := cv.X.(*ssa.BinOp); ok && (bo.Op == token.MUL || bo.Op == token.SHL) {
+						n++
+						fmt.Printf("%s: %s %s(%s %s)\n", p.Pos(cv.Pos()), fnName(fn), to.Name(), from.Name(), bo.Op)
+					}
+				})
+			case "retfield":
+				// exported functions returning a slice/map loaded directly from a struct field or global
+				if fn.Parent() != nil || fn.Object() == nil || !fn.Object().Exported() {
+					continue
+				}
+				for _, r := range returnsOf(fn) {
+					for _, v := range resultsOf(r) {
+						switch v.Type().Underlying().(type) {
+						case *types.Slice, *types.Map:
+						default:
+							continue
+						}
+						if u, ok := v.(*ssa.UnOp); ok && u.Op == token.MUL {
+							switch u.X.(type) {
+							case *ssa.FieldAddr, *ssa.Global:
+								n++
+								fmt.Printf("%s: %s returns %s\n", p.Pos(r.Pos()), fnName(fn), u.X)
+							}
+						}
+						if f, ok := v.(*ssa.Field); ok {
+							n++
+							fmt.Printf("%s: %s returns field %s\n", p.Pos(r.Pos()), fnName(fn), f)
+						}
+					}
+				}
+			case "goctx":
+				// goroutines started by a Start(ctx, host) method that capture Start's ctx
+				r := rootFn(fn)
+				if fn.Parent() != nil || r.Name() != "Start" || r.Signature.Recv() == nil || len(r.Params) < 2 || !typeIs(r.Params[1].Type(), "context", "Context") {
+					continue
+				}
+				ctxParam := r.Params[1]
+				for _, f := range withAnon(fn) {
+					allInstrs(f, func(in ssa.Instruction) {
+						g, ok := in.(*ssa.Go)
+						if !ok {
+							return
+						}
+						var vals []ssa.Value
+						vals = append(vals, g.Call.Args...)
+						if mc, ok := g.Call.Value.(*ssa.MakeClosure); ok {
+							vals = append(vals, mc.Bindings...)
+						}
+						for _, v := range vals {
+							for s := range backSlice(v) {
+								if s == ssa.Value(ctxParam) {
+									n++
+									fmt.Printf("%s: %s captures Start ctx\n", p.Pos(g.Pos()), fnName(fn))
+								}
+								if al, ok := s.(*ssa.Alloc); ok {
+									if st := singleStore(al); st != nil && st.Val == ssa.Value(ctxParam) {
+										n++
+										fmt.Printf("%s: %s captures Start ctx (spilled)\n", p.Pos(g.Pos()), fnName(fn))
+									}
+								}
+							}
+						}
+					})
+				}
+			}
+		}
+	}
+	fmt.Println("sites:", n)
 }
